@@ -321,9 +321,11 @@ impl UndefinedFunctionError {
             .get(&OwnedTerm::Atom(Atom::new("function")))?
             .atom_name()?
             .to_string();
-        let arity = map
-            .get(&OwnedTerm::Atom(Atom::new("arity")))?
-            .as_integer()? as u8;
+        let arity = u8::try_from(
+            map.get(&OwnedTerm::Atom(Atom::new("arity")))?
+                .as_integer()?,
+        )
+        .ok()?;
         let reason = map
             .get(&OwnedTerm::Atom(Atom::new("reason")))
             .and_then(|v| v.as_erlang_string());
@@ -586,7 +588,7 @@ impl FunctionClauseError {
         let arity = map
             .get(&OwnedTerm::Atom(Atom::new("arity")))
             .and_then(|a| a.as_integer())
-            .map(|a| a as u8);
+            .and_then(|a| u8::try_from(a).ok());
 
         let args = map
             .get(&OwnedTerm::Atom(Atom::new("args")))
